@@ -283,7 +283,12 @@ func Run(sc Scenario) *Outcome {
 	servers := make([]*vh.FakeForward, nOut)
 	addrs := make([]string, nOut)
 	for i := range servers {
-		s, err := vh.NewFakeForward("")
+		holder, err := vh.NewPortHolder() // keeps the port ours while the server is "down"
+		if err != nil {
+			panic(err)
+		}
+		defer holder.Release()
+		s, err := vh.NewFakeForward(holder.Addr)
 		if err != nil {
 			panic(err)
 		}
